@@ -335,6 +335,56 @@ def known_findings(prop):
 
 # ------------------------------------------------------------------ the check driver
 
+def regenerate_all(skip=()):
+    """Bring EVERY generated Lean file (K-gen) up to date with the current source tree before a
+    check builds anything: a check whose theorems or driver import a fact file it does not own must
+    not see the facts of an earlier tree (a run on a modified tree followed by a run on the restored
+    one). A translator that cannot read the current source leaves its last output in place; that
+    failure is reported by the check that owns the translator, not here."""
+    gen = os.path.join(LEAN, "QlibcModel", "Generated")
+
+    def put(name, text):
+        path = os.path.join(gen, name)
+        if not os.path.exists(path) or open(path).read() != text:
+            open(path, "w").write(text)
+
+    def harr():
+        from translator import harr_layout
+        put("HarrLayout.lean", harr_layout.render(harr_layout.extract(REPO)))
+
+    def tables_():
+        from translator import tables
+        put("EncodeTables.lean", tables.render(tables.extract(REPO)))
+
+    def vec():
+        from translator import vecprims
+        put("VectorPrims.lean", vecprims.render(vecprims.extract(REPO)))
+
+    def conf():
+        from translator import confconsts
+        put("ConfConsts.lean", confconsts.render(confconsts.extract(REPO)))
+
+    def md5():
+        from translator import md5steps
+        put("HashConsts.lean", md5steps.render(md5steps.extract(REPO)))
+
+    def tree():
+        from translator import treeconfig
+        treeconfig.write(REPO, os.path.join(gen, "TreeConfig.lean"))
+
+    def lock():
+        from checks import lockcommon
+        lockcommon.regenerate_lock()
+
+    for name, fn in (("harr", harr), ("tables", tables_), ("vec", vec), ("conf", conf), ("md5", md5), ("tree", tree), ("lock", lock)):
+        if name in skip:
+            continue
+        try:
+            fn()
+        except (SystemExit, Exception) as e:
+            log("  (translator %s cannot read the current source: %s - its check reports this)" % (name, str(e)[:120]))
+
+
 class Stream:
     """one correspondence stream: a list of operation lines (each op is one line, or a whole
     history when `history` is true: then the ops of one file depend on each other)"""
@@ -422,6 +472,7 @@ class Check:
         log("[%s] tier=%s seed=%d" % (prop, self.tier, self.seed))
         proof = {"built": False, "audited": False, "errors": []}
         # 1 regenerate
+        regenerate_all()
         try:
             regen = self.regenerate()
         except SystemExit as e:
